@@ -240,3 +240,70 @@ fn kd10_prime() {
     core::mem::forget(stream);
     core::mem::forget(state);
 }
+
+/// deflatePrime with a pending buffer that is (nearly) full, as after many deflatePrime calls without deflate() or with
+/// undrained output: the call either appends the bits or refuses with BufError (zlib: "not enough room in the internal
+/// buffer to insert the bits") leaving everything as it was — it never aborts (C06, C16).
+fn prime_room_instance(room: usize) {
+    const WB: usize = 4;
+    const LB: usize = 8; // pending buffer = 32 bytes
+    let mut w = [0u8; 2 << WB];
+    let mut p = [0u16; 1 << WB];
+    let mut h = [0u16; HASH_SIZE];
+    let mut pe = [MaybeUninit::new(0u8); 4 * LB];
+    let mut sy = [0u8; 3 * LB];
+    let mut state = typed_state(&mut w, &mut p, &mut h, &mut pe, &mut sy, WB, LB, 6, 0, Strategy::Default);
+    let queued = 32 - room;
+    let fill = [0xA5u8; 32];
+    state.bit_writer.pending.extend(&fill[..queued]);
+    let bv0: u8 = kani::any();
+    kani::assume(bv0 <= 63);
+    let bb0: u64 = kani::any();
+    kani::assume(bb0 >> bv0 == 0);
+    state.bit_writer.bit_buffer = bb0;
+    state.bit_writer.bits_valid = bv0;
+    let mut model = BitModel::new();
+    model.push(bb0, bv0 as u32);
+    let mut stream = typed_stream(unsafe { &mut *(&mut state as *mut State) });
+    let bits: i32 = kani::any();
+    kani::assume(bits >= 0 && bits <= 32);
+    let value: i32 = kani::any();
+    let rc = prime(&mut stream, bits, value);
+    let bw = &stream.state.bit_writer;
+    assert!(matches!(rc, ReturnCode::Ok | ReturnCode::BufError));
+    if rc == ReturnCode::BufError {
+        assert!(bw.bits_valid == bv0 && bw.bit_buffer == bb0 && bw.pending.pending().len() == queued, "a refused call changes nothing");
+        assert!(room < 16, "there was room for the whole bit buffer: no reason to refuse");
+    } else {
+        model.push(value as u32 as u64, bits as u32);
+        let total = model.n;
+        let nbytes = (total / 8) as usize;
+        assert!(bw.pending.pending().len() == queued + nbytes);
+        assert!(bw.bits_valid as u32 == total % 8);
+        let k: usize = kani::any();
+        kani::assume(k < nbytes);
+        assert!(bw.pending.pending()[queued + k] == model.byte(k));
+        assert!(bw.pending.pending()[queued - 1] == 0xA5 || queued == 0);
+    }
+    kani::cover!(bits == 32 && bv0 == 63);
+    core::mem::forget(stream);
+    core::mem::forget(state);
+}
+
+macro_rules! prime_room_harness {
+    ($name:ident, $room:expr) => {
+        #[kani::proof]
+        #[kani::unwind(14)]
+        #[kani::stub(core::fmt::write, stub_fmt_write)]
+        #[kani::stub(core::panicking::panic_nounwind, stub_pn)]
+        #[kani::stub(core::panicking::panic_nounwind_fmt, stub_pnf)]
+        fn $name() {
+            prime_room_instance($room);
+        }
+    };
+}
+prime_room_harness!(kd10_prime_room0, 0);
+prime_room_harness!(kd10_prime_room3, 3);
+prime_room_harness!(kd10_prime_room7, 7);
+prime_room_harness!(kd10_prime_room8, 8);
+prime_room_harness!(kd10_prime_room16, 16);
